@@ -386,10 +386,17 @@ fn gen_segs(rng: &mut Rng, gg: &GlyphGen, target: usize, long_runs: bool) -> Vec
             }
             13 => {
                 let c1 = [gg.val(rng), gg.val(rng), gg.val(rng), gg.val(rng), gg.val(rng), gg.val(rng)];
-                let (dx4, dy4, dx5, dy5) = (gg.val(rng), gg.val(rng), gg.val(rng), gg.val(rng));
-                let dx = sum(&[&c1[0], &c1[2], &c1[4], &dx4, &dx5]);
+                let (dx4, dy4, mut dx5, dy5) = (gg.val(rng), gg.val(rng), gg.val(rng), gg.val(rng));
+                let mut dx = sum(&[&c1[0], &c1[2], &c1[4], &dx4, &dx5]);
                 let dy = sum(&[&c1[1], &c1[3], &c1[5], &dy4, &dy5]);
                 let exact = c1.iter().chain([&dx4, &dy4, &dx5, &dy5]).all(|x| x.is_integer());
+                if exact && rng.chance(1, 4) {
+                    // the tie |dx| == |dy|: TN 5177 takes the last operand as dx only when
+                    // abs(dx) > abs(dy), so a tie is the dy form
+                    let target = if rng.bool() { dy.d } else { -dy.d };
+                    dx5 = Val { d: dx5.d + target - dx.d, deltas: Vec::new() };
+                    dx = sum(&[&c1[0], &c1[2], &c1[4], &dx4, &dx5]);
+                }
                 let d6 = gg.val(rng);
                 let (dx6, dy6) = match abs_gt(&dx, &dy, exact, &gg.tuples) {
                     Some(true) => (d6, dy.neg()),
@@ -1272,6 +1279,11 @@ impl<'r> Enc<'r> {
                             vals.extend_from_slice(&c0);
                             vals.extend_from_slice(&c1[..4]);
                             vals.push(if form == "flex1:dx" { c1[4].clone() } else { c1[5].clone() });
+                            let dx = sum(&[&c0[0], &c0[2], &c0[4], &c1[0], &c1[2]]);
+                            let dy = sum(&[&c0[1], &c0[3], &c0[5], &c1[1], &c1[3]]);
+                            if c0.iter().chain(c1[..4].iter()).all(|v| v.is_integer()) && dx.d.abs() == dy.d.abs() && dx.d != 0 {
+                                self.class("op:flex1:tie");
+                            }
                             op::FLEX1
                         }
                     };
@@ -2211,29 +2223,9 @@ impl C18 {
             Some(g) => g,
             None => return format!("{}:{}", kind, tag),
         };
-        if let Some(sc) = &g.seac {
-            let comp = |p: usize| b.slots[p].glyph.as_ref();
-            let has_w = |p: usize| comp(p).map_or(false, |g| g.width.is_some());
-            // width taken by a moveto / endchar of the component (a stem operator tolerates an extra operand)
-            let w_on_move = |p: usize| {
-                b.slots[p].enc.as_ref().map_or(false, |e| {
-                    e.classes.iter().any(|c| matches!(c.as_str(), "width-prefix:rmoveto" | "width-prefix:hmoveto" | "width-prefix:vmoveto" | "width-prefix:endchar"))
-                })
-            };
-            let stems = |p: usize| comp(p).and_then(|g| g.hints.as_ref()).map_or(0, |h| h.hstems.len() + h.vstems.len());
-            let masks = |p: usize| comp(p).and_then(|g| g.hints.as_ref()).map_or(false, |h| h.masks);
-            if b.iso_adobe && (sc.bchar > 228 || sc.achar > 228) && kind.contains("InvalidSeacCode") {
-                return "seac:isoadobe-code>228".to_string();
-            }
-            if g.width.is_none() {
-                return "seac:composite-without-width".to_string();
-            }
-            if w_on_move(sc.base) || (w_on_move(sc.accent) && sc.accent != sc.base) || (has_w(sc.base) && sc.accent == sc.base) {
-                return "seac:component-width".to_string();
-            }
-            if stems(sc.base) > 0 && masks(sc.accent) && (stems(sc.base) + stems(sc.accent) + 7) / 8 != (stems(sc.accent) + 7) / 8 {
-                return "seac:component-hintmask".to_string();
-            }
+        if g.seac.is_some() {
+            // (the component that diverged is named by `tag`: the operator form of the first
+            // differing command, looked up in the component's own encoding)
             return format!("seac:{}:{}", kind, tag);
         }
         // Triage by ablation: the same flat (call free) program alone in a single Font DICT font. When
